@@ -4,10 +4,12 @@ from __future__ import annotations
 
 
 import numpy as np
+import onnx_ir as ir
 
 import jax
 from jax2onnx._compat.jax import JaxprEqn
 from jax2onnx.converter.typing_support import LoweringContextProtocol
+from jax2onnx.ir_utils import numpy_dtype_to_ir
 
 from jax2onnx.plugins._post_check_onnx_graph import expect_graph as EG
 from jax2onnx.plugins.plugin_system import PrimitiveLeafPlugin, register_primitive
@@ -74,12 +76,46 @@ class ShiftRightLogicalPlugin(PrimitiveLeafPlugin):
         if callable(producer) and producer() is not None:
             desired_name = ctx.fresh_name("srl_out")
 
-        result = ctx.builder.BitShift(
-            lhs_val,
-            rhs_val,
-            direction="RIGHT",
-            _outputs=[desired_name],
-        )
+        lhs_dtype = np.dtype(getattr(lhs_var.aval, "dtype", np.uint32))
+        if np.issubdtype(lhs_dtype, np.signedinteger):
+            # ONNX BitShift is defined for unsigned types only: shift the two's-complement bit
+            # pattern in the unsigned twin type (a negative amount becomes >= bit width there,
+            # which gives 0 like XLA's unsigned comparison of the amount).
+            unsigned_np = np.dtype(f"uint{lhs_dtype.itemsize * 8}")
+            unsigned_enum = numpy_dtype_to_ir(unsigned_np)
+
+            def _as_unsigned(value, hint):
+                cast = ctx.builder.Cast(
+                    value,
+                    to=int(unsigned_enum.value),
+                    _outputs=[ctx.fresh_name(hint)],
+                )
+                cast.type = ir.TensorType(unsigned_enum)
+                if getattr(value, "shape", None) is not None:
+                    cast.shape = value.shape
+                return cast
+
+            shifted = ctx.builder.BitShift(
+                _as_unsigned(lhs_val, "srl_input_u"),
+                _as_unsigned(rhs_val, "srl_shift_u"),
+                direction="RIGHT",
+                _outputs=[ctx.fresh_name("srl_shifted_u")],
+            )
+            shifted.type = ir.TensorType(unsigned_enum)
+            if getattr(out_spec, "shape", None) is not None:
+                shifted.shape = out_spec.shape
+            result = ctx.builder.Cast(
+                shifted,
+                to=int(numpy_dtype_to_ir(lhs_dtype).value),
+                _outputs=[desired_name],
+            )
+        else:
+            result = ctx.builder.BitShift(
+                lhs_val,
+                rhs_val,
+                direction="RIGHT",
+                _outputs=[desired_name],
+            )
         if getattr(out_spec, "type", None) is not None:
             result.type = out_spec.type
         if getattr(out_spec, "shape", None) is not None:
